@@ -283,7 +283,12 @@ def mutdef(fn):
     if not mut:
         return out
     # a parameter re-bound before use (x = list(x) / x = x or []) is a fresh object from then on
-    rebound = {t.id: n.lineno for n in ast.walk(fn) if isinstance(n, ast.Assign) for t in n.targets if isinstance(t, ast.Name) and t.id in mut}
+    rebound = {}
+    for n in ast.walk(fn):
+        if isinstance(n, ast.Assign):
+            for t in n.targets:
+                if isinstance(t, ast.Name) and t.id in mut:
+                    rebound[t.id] = min(rebound.get(t.id, n.lineno), n.lineno)
     for n in ast.walk(fn):
         name = None
         if isinstance(n, ast.AugAssign) and isinstance(n.target, ast.Name) and n.target.id in mut:
